@@ -12,7 +12,7 @@ from ._wcommon import (ASSUMPTIONS, COMPONENTS_REAL, COMPONENTS_STUB, Hist, Viol
 from ._wcommon import abstract_states  # noqa: F401,E402
 
 ID = "C11"
-RUNS = {"quick": 8000, "thorough": 250000}
+RUNS = {"quick": 10000, "thorough": 250000}
 BUDGET_S = {"quick": 60, "thorough": 900}
 RULE = ("seeded per-attempt outcome sequences (fail / succeed / no-result / timeout), max_retries 0..6 as int label, str label or "
         "middleware default, retry_on_error as bool label, 'True'/'true'/'False' str label or default, both no_result_on_retry "
